@@ -225,7 +225,12 @@ func insertMethod(class, super slip.Class, method *slip.Method, combo *slip.Comb
 			pos++
 		}
 	}
-	m.Combinations = append(append(m.Combinations[:pos], combo), m.Combinations[pos:]...)
+	// Build a new slice. Appending to m.Combinations[:pos] would overwrite
+	// the combination at pos before the tail is copied.
+	combos := make([]*slip.Combination, 0, len(m.Combinations)+1)
+	combos = append(combos, m.Combinations[:pos]...)
+	combos = append(combos, combo)
+	m.Combinations = append(combos, m.Combinations[pos:]...)
 }
 
 // DefCallerMethod defines a method for a caller.
